@@ -295,6 +295,21 @@ pub fn build(rng: &mut Rng, o: &mut Outcome) -> Spreadsheet {
             o.count("defined-names.sheet-scoped-only-elsewhere", 1);
         }
     }
+    // the same name once for the whole workbook (pointing at sheet i, held by another sheet) and once scoped to sheet i:
+    // legal in Excel, and two distinct names
+    if names.len() > 1 && rng.chance(1, 3) {
+        uid += 1;
+        let i = rng.below(names.len() as u64) as usize;
+        let j = (i + 1) % names.len();
+        let me = &names[i];
+        let me_q = if me.chars().all(|c| c.is_ascii_alphanumeric()) && !me.chars().next().unwrap().is_ascii_digit() { me.to_string() } else { format!("'{}'", me.replace('\'', "''")) };
+        let nm = format!("Both{}", uid);
+        let _ = book.get_sheet_mut(&j).unwrap().add_defined_name(nm.clone(), format!("{}!$A$1:$B${}", me_q, 2 + i));
+        let ws = book.get_sheet_mut(&i).unwrap();
+        let _ = ws.add_defined_name(nm.clone(), format!("{}!$F$6:$G${}", me_q, 8 + i));
+        ws.get_defined_names_mut().last_mut().unwrap().set_local_sheet_id(i as u32);
+        o.count("defined-names.same-name-global-and-sheet-scoped", 1);
+    }
     if !early_active {
         let at = rng.below(names.len() as u64) as u32;
         book.set_active_sheet(at);
